@@ -4,7 +4,7 @@ manifest never drifts from what ./check actually registers)."""
 import json, os, sys
 ROOT = os.path.dirname(os.path.dirname(os.path.abspath(__file__)))
 
-HOOK_COMMITS = ["dd6fa0d"]  # fix commits (not hooks): 3bcfa81 (F2), 6fbb873 (F1)
+HOOK_COMMITS = ["dd6fa0d", "911767a"]  # fix commits (not hooks): 3bcfa81 (F2), 6fbb873 (F1)
 
 WORLD_NOTE = "Trusted: the BOLT-2/3 reference model in harness/world/src/model.rs, the harness's chain/persistence models, determinism shim (getrandom), and the taps (signer wrapper, Persist, chain::Watch wrapper, broadcaster). Nodes use the production feature set plus `_verif`/`unsafe_revoked_tx_signing`; fee estimators move together. Known findings: /verif/known_findings.json."
 CLAIMED = {
@@ -28,6 +28,10 @@ CLAIMED = {
         technique="runtime monitoring: generated message values and byte-level mutants pushed through the real codecs under panic capture, with round-trip / prefix-exactness / TLV-rule oracles",
         text="For every wire message type, generated values (all optional TLVs toggled, boundary-length vectors, all address and feature encodings) are encoded, decoded and compared; the type dispatcher is checked for identity; every strict prefix must fail or re-encode to exactly itself; every single-byte mutant must fail or be stable under re-encoding; unknown odd TLVs must be ignored, unknown even / non-minimal / over-long ones rejected; arbitrary strings never panic. Quick ~2*10^4 values / ~10^7 mutants; thorough 50x.",
         note="Trusted: the library's PartialEq on message structs; Debug rendering for dispatcher comparison. A slice-bounded reader makes reading past the frame impossible by construction; reading past an inner declared length shows up as a round-trip or prefix-exactness failure."),
+    "C17": dict(category="exploration", design_ref="DESIGN.md §6 C17",
+        technique="runtime monitoring: reference-model monitor (latest-timestamp-wins map with signature/chain/capacity/removal-tracking rules) run in lock step with the real NetworkGraph over generated adversarial gossip sequences; order-permutation and serialization round-trip oracles",
+        text="Generated gossip with real secp256k1 keys is delivered to NetworkGraph through the signed and unsigned public APIs; a ~100-line reference predicts accept/reject of every message and the final graph for the exact sequence (G1), admissible permutations with duplication of the valid subset must converge to one graph (G2), permanent-failure and stale-pruning operations are mirrored (G3), and every final graph must survive write/read (G4). Quick ~6.4k universes / ~2*10^6 predictions / 5*10^4 orders; thorough 50x.",
+        note="Trusted: the reference graph in c17_gossip.rs; the projection (channels: endpoints, capacity, per-direction policy+timestamp; nodes: channel list, announcement timestamp/rgb/alias). P2PGossipSync's relay/backpressure logic is outside this property."),
     "C16": dict(
         category="exploration",
         technique="runtime monitoring: independent route-validity oracle over find_route on generated graphs (reference-model monitor), reachability oracle for completeness in the slack regime",
